@@ -42,6 +42,9 @@ func TestMain(m *testing.M) {
 	glue.SilenceKlog()
 	pool = gen.NewPool(glue.NewPoolArgs())
 	if rp := ev.LoadReplay(); rp != nil {
+		if rp.Phase == "tcp_retention" {
+			ev.RunReplay(rp, runTCase)
+		}
 		ev.RunReplay(rp, func(c Case) *ev.Failure { return runCase(c, nil) })
 	}
 	rec = ev.New("C03", "histories of 1..6 packets (random bytes behind a valid prefix; grammar-generated template and data messages incl. degenerate templates; truncations at every offset, padding extensions, length-prefix / field-count / set-id tampering, byte flips, appended sets) x 3 decoding modes x tcp/udp; non-trivial = some packet got past the header check into field-specifier or record decoding; distinct by hash(mode, proto, packets)",
@@ -491,8 +494,82 @@ func preamble(t *testing.T) bool {
 	return ok
 }
 
+// TCase is a stream of valid messages for the transport phase: one template and data messages of
+// its records, presented to the TCP connection handler as one connection; every delivered message is
+// retained and compared with its own wire bytes only after the whole stream was read, so a field that
+// shares memory with a read buffer shows.
+type TCase struct {
+	Mode   string          `json:"mode"`
+	Fields []gen.TField    `json:"fields"`
+	Msgs   [][][]ref.Value `json:"msgs"` // data messages -> records -> values
+	Cut    int             `json:"cut"`  // one segment boundary (0 = none)
+}
+
+func runTCase(c TCase) *ev.Failure {
+	mode := collector.DecodingMode(c.Mode)
+	cp, err := collector.InitCollectingProcess(collector.CollectorInput{Address: "127.0.0.1:0", Protocol: "tcp", MaxBufferSize: 65535, DecodingMode: mode})
+	if err != nil {
+		return ev.Failf("InitCollectingProcess: %v", err)
+	}
+	view := gen.View(c.Fields)
+	stream := ref.TemplateMessage(ref.Header{Domain: 4, Seq: 1}, gen.Wire(256, c.Fields))
+	var wires [][]byte
+	for k, recs := range c.Msgs {
+		w := ref.DataMessage(ref.Header{Domain: 4, Seq: uint32(2 + k)}, ref.Template{ID: 256, Fields: view}, recs)
+		if len(w) > 65535 {
+			continue
+		}
+		wires = append(wires, w)
+		stream = append(stream, w...)
+	}
+	chunks := [][]byte{stream}
+	if c.Cut > 0 && c.Cut < len(stream) {
+		chunks = [][]byte{append([]byte(nil), stream[:c.Cut]...), append([]byte(nil), stream[c.Cut:]...)}
+	}
+	got, ok := glue.ServeTCP(cp, &glue.ChunkConn{Chunks: chunks}, 15*time.Second)
+	if !ok {
+		return ev.Failf("the connection handler did not return within 15 s")
+	}
+	if len(got) != 1+len(wires) {
+		return ev.Failf("%d messages delivered over the TCP handler, %d valid messages sent", len(got), 1+len(wires))
+	}
+	for k, w := range wires {
+		if f := glue.CheckDataMsg(got[1+k], view, w[20:], mode); f != nil {
+			return ev.Failf("message %d, inspected after the whole stream was read: %s", k, f.Msg)
+		}
+	}
+	return nil
+}
+
+func genTCase(t *rapid.T) TCase {
+	c := TCase{Mode: rapid.SampledFrom([]string{"LenientKeepUnknown", "LenientDropUnknown", "Strict"}).Draw(t, "mode")}
+	for n := rapid.IntRange(1, 8).Draw(t, "nf"); n > 0; n-- {
+		if c.Mode != "Strict" && rapid.IntRange(0, 3).Draw(t, "unk") == 0 {
+			c.Fields = append(c.Fields, pool.UnknownField(t, false))
+		} else {
+			c.Fields = append(c.Fields, pool.KnownField(t))
+		}
+	}
+	view := gen.View(c.Fields)
+	for n := rapid.IntRange(2, 5).Draw(t, "nmsg"); n > 0; n-- {
+		var recs [][]ref.Value
+		for k := rapid.IntRange(1, 3).Draw(t, "nrec"); k > 0; k-- {
+			recs = append(recs, gen.Record(t, view, rapid.SampledFrom([]int{8, 40, 300, 5000}).Draw(t, "maxvar")))
+		}
+		c.Msgs = append(c.Msgs, recs)
+	}
+	c.Cut = rapid.IntRange(0, 200).Draw(t, "cut")
+	return c
+}
+
 func TestC03(t *testing.T) {
 	if !preamble(t) {
+		return
+	}
+	if !ev.Rapid(t, rec, "tcp_retention", rec.Scale(3000, 200000), genTCase, func(c TCase) *ev.Failure {
+		rec.Case(ev.Hash(c), true, "tcp_retention", "mode_"+c.Mode)
+		return runTCase(c)
+	}) {
 		return
 	}
 	ev.Rapid(t, rec, "histories", rec.Scale(50000, 2000000), genCase, func(c Case) *ev.Failure {
